@@ -41,8 +41,8 @@ for n in $names; do
   for f in $demos; do cp $f $tdir/; done
   [ -f $d/demo_cargo.diff ] && git apply $d/demo_cargo.diff
   feat=""
-  grep -q "features enable,verif" $d/run_demo.sh 2>/dev/null && feat="--features enable,verif"
-  f2=$(grep -o -- "--features [A-Za-z0-9_/,-]*" $d/run_demo.sh 2>/dev/null | head -1)
+  grep -v "^ *#" $d/run_demo.sh 2>/dev/null | grep -q "features enable,verif" && feat="--features enable,verif"
+  f2=$(grep -v "^ *#" $d/run_demo.sh 2>/dev/null | grep -o -- "--features [A-Za-z0-9_/,-]*" | head -1)
   [ -n "$f2" ] && feat="$f2"
   grep -q -- "--release" $d/run_demo.sh 2>/dev/null && feat="$feat --release"
   # only the main demo decides; auxiliary tests (e.g. seeded_simple) may pass either way
